@@ -2,7 +2,11 @@
 
    The hash H and the encodings of the 16 state components, of the service information and of the
    lookup time-slot lists are universally quantified; the premises on the encodings are exactly the
-   codec theorems (decode after encode, canonicity: C11/C13); the only premise on H is its output length.
+   codec theorems (decode after encode on well-typed values, canonicity: C11/C13; comp_ok / sinfo_ok /
+   ts_ok say which values are well-typed, take True for a total codec); the only premise on H is its
+   output length.  The second half of the file instantiates all of this with the real descriptors of
+   Model/JamTypes.v, the generic codec of Model/Codec.v and the Appendix D root of Model/Trie.v, the
+   premises being discharged by the C11/C13/C15 theorems.
    No injectivity of H is assumed: every statement that needs it ends in "\/ coincidence H enc_ts st",
    an explicit witness among the finitely many hash inputs of the state (Model/StateKV.v: an entry whose
    key has a reserved shape, or two different inputs with the same 27-byte truncated hash). *)
@@ -23,13 +27,19 @@ Section C17.
   Variable tslots : Type.
   Variable enc_ts : tslots -> bytes.
   Variable dec_ts : bytes -> option tslots.
-  Hypothesis comp_rt : forall i c, dec_comp i (enc_comp i c) = Some c.
-  Hypothesis comp_canon : forall i b c, dec_comp i b = Some c -> b = enc_comp i c.
-  Hypothesis info_rt : forall x, dec_info (enc_info x) = Some x.
-  Hypothesis info_canon : forall b x, dec_info b = Some x -> b = enc_info x.
-  Hypothesis ts_rt : forall t, dec_ts (enc_ts t) = Some t.
-  Hypothesis ts_canon : forall b t, dec_ts b = Some t -> b = enc_ts t.
+  Variable comp_ok : N -> comp -> Prop.
+  Variable sinfo_ok : sinfo -> Prop.
+  Variable ts_ok : tslots -> Prop.
+  Hypothesis comp_rt : forall i c, comp_ok i c -> dec_comp i (enc_comp i c) = Some c.
+  Hypothesis comp_canon : forall i b c, dec_comp i b = Some c -> b = enc_comp i c /\ comp_ok i c.
+  Hypothesis info_rt : forall x, sinfo_ok x -> dec_info (enc_info x) = Some x.
+  Hypothesis info_canon : forall b x, dec_info b = Some x -> b = enc_info x /\ sinfo_ok x.
+  Hypothesis ts_rt : forall t, ts_ok t -> dec_ts (enc_ts t) = Some t.
+  Hypothesis ts_canon : forall b t, dec_ts b = Some t -> b = enc_ts t /\ ts_ok t.
   Hypothesis H_len : forall x, length (H x) = 32%nat.
+
+  (* valid_state: the 16 components, the service informations and the lookup values are well-typed *)
+  Notation valid_state := (valid_state comp sinfo tslots comp_ok sinfo_ok ts_ok).
 
   Notation serialize := (serialize H enc_comp enc_info enc_ts).
   Notation parse := (parse H dec_comp zero_comp dec_info zero_info dec_ts).
@@ -38,17 +48,17 @@ Section C17.
      succeeds, and the parsed state exported again, together with the raw entries the import kept,
      is the same multiset of (key, value) pairs — or a hash coincidence is exhibited. *)
   Theorem C17_export_import_roundtrip : forall (st : state comp sinfo tslots) (kvs : list kv),
-    wf_state enc_ts st -> Permutation kvs (serialize st) ->
+    wf_state enc_ts st -> valid_state st -> Permutation kvs (serialize st) ->
     (exists st' raw, parse kvs = Some (st', raw) /\ Permutation (serialize st' ++ raw) kvs)
     \/ coincidence H enc_ts st.
   Proof. exact (export_import_roundtrip H comp enc_comp dec_comp zero_comp sinfo enc_info dec_info zero_info tslots enc_ts dec_ts
-                  comp_rt comp_canon info_rt info_canon ts_rt ts_canon H_len). Qed.
+                  comp_ok sinfo_ok ts_ok comp_rt comp_canon info_rt info_canon ts_rt ts_canon H_len). Qed.
 
   (* what the import recovers, next to the round trip: every one of the 16 components, exactly the
      services of the state, each with its service information; every raw entry is an entry of a service
      of the state (key C(s,x) for one of its hash inputs x, value one of its values) *)
   Theorem C17_import_recovers : forall (st : state comp sinfo tslots) (kvs : list kv),
-    wf_state enc_ts st -> Permutation kvs (serialize st) ->
+    wf_state enc_ts st -> valid_state st -> Permutation kvs (serialize st) ->
     (exists st' raw, parse kvs = Some (st', raw) /\
        Permutation (serialize st' ++ raw) kvs /\
        (forall i, In i idx16 -> st_comp st' i = st_comp st i) /\
@@ -57,26 +67,26 @@ Section C17.
        (forall k v, In (k, v) raw -> exists s a, In (s, a) (st_delta st) /\ is_entry H sinfo tslots enc_ts s a k v))
     \/ coincidence H enc_ts st.
   Proof. exact (export_import_recovers H comp enc_comp dec_comp zero_comp sinfo enc_info dec_info zero_info tslots enc_ts dec_ts
-                  comp_rt comp_canon info_rt info_canon ts_rt ts_canon H_len). Qed.
+                  comp_ok sinfo_ok ts_ok comp_rt comp_canon info_rt info_canon ts_rt ts_canon H_len). Qed.
 
   (* hence the same state root, for any root function that is invariant under permutation (C15) *)
   Theorem C17_same_state_root : forall (R : Type) (root : list kv -> R) (st : state comp sinfo tslots) (kvs : list kv),
     (forall l l', Permutation l l' -> root l = root l') ->
-    wf_state enc_ts st -> Permutation kvs (serialize st) ->
+    wf_state enc_ts st -> valid_state st -> Permutation kvs (serialize st) ->
     (exists st' raw, parse kvs = Some (st', raw) /\ root (serialize st' ++ raw) = root (serialize st))
     \/ coincidence H enc_ts st.
   Proof. exact (export_import_same_root H comp enc_comp dec_comp zero_comp sinfo enc_info dec_info zero_info tslots enc_ts dec_ts
-                  comp_rt comp_canon info_rt info_canon ts_rt ts_canon H_len). Qed.
+                  comp_ok sinfo_ok ts_ok comp_rt comp_canon info_rt info_canon ts_rt ts_canon H_len). Qed.
 
   (* whatever the order of the input key-values: two orders give parsed states and raw entries that
      stand for the same key-value multiset *)
   Theorem C17_order_independent : forall (st : state comp sinfo tslots) (kvs kvs' : list kv),
-    wf_state enc_ts st -> Permutation kvs (serialize st) -> Permutation kvs' kvs ->
+    wf_state enc_ts st -> valid_state st -> Permutation kvs (serialize st) -> Permutation kvs' kvs ->
     (exists st1 raw1 st2 raw2, parse kvs = Some (st1, raw1) /\ parse kvs' = Some (st2, raw2) /\
        Permutation (serialize st1 ++ raw1) (serialize st2 ++ raw2))
     \/ coincidence H enc_ts st.
   Proof. exact (import_order_independent H comp enc_comp dec_comp zero_comp sinfo enc_info dec_info zero_info tslots enc_ts dec_ts
-                  comp_rt comp_canon info_rt info_canon ts_rt ts_canon H_len). Qed.
+                  comp_ok sinfo_ok ts_ok comp_rt comp_canon info_rt info_canon ts_rt ts_canon H_len). Qed.
 
   (* the import side alone, for ANY key-values (not only exported ones) and any hash: if the keys are
      pairwise different, the 16 component keys are present and every parsed service has its
@@ -87,7 +97,7 @@ Section C17.
     (forall s, In s (map fst (st_delta st)) -> s < 2 ^ 32 /\ In (key_svc_idx 255 s) (map fst kvs)) ->
     Permutation (serialize st ++ raw) kvs.
   Proof. exact (import_export_any H comp enc_comp dec_comp zero_comp sinfo enc_info dec_info zero_info tslots enc_ts dec_ts
-                  comp_canon info_canon ts_canon). Qed.
+                  comp_ok sinfo_ok ts_ok comp_canon info_canon ts_canon). Qed.
 
   (* the exported keys of a well-formed state are pairwise different, or a coincidence is exhibited
      (the coincidence is computed by the decision procedure coll_free) *)
@@ -148,9 +158,11 @@ Example C17_ex_roundtrip :
   exists st' raw, ex_parse (rev (ex_ser ex_st)) = Some (st', raw) /\ Permutation (ex_ser st' ++ raw) (rev (ex_ser ex_st)).
 Proof.
   destruct C17_ex_wf as [Hwf [Hc _]].
-  destruct (roundtrip_no_coincidence exH bytes ex_enc ex_dec (fun _ => []) bytes ex_id ex_some [] bytes ex_id ex_some)
+  destruct (roundtrip_no_coincidence exH bytes ex_enc ex_dec (fun _ => []) bytes ex_id ex_some [] bytes ex_id ex_some
+              (fun _ _ => True) (fun _ => True) (fun _ => True))
     with (st := ex_st) (kvs := rev (ex_ser ex_st)) as (st' & raw & Hp & Hr & _); [..|eauto];
-    try (intros; reflexivity); try (unfold ex_dec, ex_some, ex_enc, ex_id; intros; congruence); try exact Hwf.
+    try (intros; reflexivity); try (unfold ex_dec, ex_some, ex_enc, ex_id; intros; split; [congruence|exact I]); try exact Hwf.
+  - split; [intros; exact I|intros; split; intros; exact I].
   - intros x. unfold exH. rewrite firstn_length, app_length. unfold zeros. rewrite repeat_length. lia.
   - apply coll_free_true. exact Hc.
   - apply Permutation_sym, Permutation_rev.
